@@ -269,6 +269,13 @@ def _c17d_cases(tier, seed):
                     g2 = base.copy()
                     g2[1:-1] = np.sort(base[0] + (base[-1] - base[0]) * np.array(sorted(rnd.random() for _ in range(len(base) - 2))))
                     grids[c] = g2 if c else base
+            if d >= 2 and rep % 6 == 1:
+                # every entry is an element of SOME column's grid, but not of its own
+                ga, gb = np.array([0.0, 1.0, 2.0, 3.0]), np.array([0.0, 0.5, 1.0, 1.5])
+                grids = [ga, gb] + [ga] * (d - 2)
+                data = np.array([[0.5, 1.0] + [1.0] * (d - 2), [1.5, 0.0] + [3.0] * (d - 2), [1.0, 3.0] + [0.0] * (d - 2)])
+                yield {"data": data, "param_grid": grids}
+                continue
             if rep % 3 == 2:
                 for c in range(d):
                     grids[c] = _semi_regular(rnd, rnd.choice([4, 5, 9]), rnd.choice([0.0, -3.0, 7.0]), rnd.choice(SCALES))
@@ -499,6 +506,16 @@ def _c15_cases(tier, seed):
     one = [(l, u, p) for l in LATTICE for u in LATTICE for p in LATTICE]
     for (l, u, p) in one:
         yield {"parameters_bounds": [[l], [u]], "parameters_precision": [p]}
+    # one-decimal specifications whose precision is (nearly) the whole range: `precision > upper - lower` is decided in
+    # doubles exactly as written (an algebraically equal rearrangement rounds differently)
+    dec = [x / 10 for x in range(-30, 31, 3)]
+    for l in dec:
+        for u in dec:
+            if u > l:
+                for p_ in (round(u - l, 1), round(u - l - 0.1, 1), round(u - l + 0.1, 1), 2.1, 0.3):
+                    if p_ > 0:
+                        yield {"parameters_bounds": [[l], [u]], "parameters_precision": [p_]}
+    yield {"parameters_bounds": [[1e20], [1e20 + 16384]], "parameters_precision": [20000.0]}
     n2 = 400 if tier == "quick" else 6000
     for _ in range(n2):
         d = rnd.choice([2, 3])
@@ -518,7 +535,10 @@ def _c15g_cases(tier, seed):
     n = 300 if tier == "quick" else 5000
     nice = [(0.0, 1.0, 0.1), (0.0, 0.3, 0.1), (0.0, 0.7, 0.1), (0.0, 0.03, 0.01), (-1.0, 1.0, 0.25), (0.0, 1.0, 0.3),
             (2.0, 10.0, 2.0), (0.0, 100.0, 1.0), (-5.0, 5.0, 0.01), (1e6, 1e6 + 10, 0.5), (0.0, 1e-3, 1e-4),
-            (0.0, 10.0, 1e-4)]
+            (0.0, 10.0, 1e-4),
+            # upper bound exactly 0, negative ranges, large upper bounds (a tolerance relative to |upper| fails here)
+            (-1.0, 0.0, 0.25), (-1.0, 0.0, 0.5), (-0.6, 0.0, 0.2), (-3.0, -1.0, 0.5), (0.0, 999999.95, 10.0),
+            (0.0, 1e6, 250.0), (5e5, 1e6 - 0.05, 10.0)]
     for t in nice:
         yield {"lo": [t[0]], "hi": [t[1]], "pr": [t[2]]}
     for _ in range(n):
